@@ -96,6 +96,8 @@ type Gen struct {
 	quiet       bool // inline mode: no obligations
 	nbound      int
 	heapClk     map[*Term]*Term // heap component version -> clock when it was written
+	freshRefs   map[*Term]bool  // objects allocated by this function that have not escaped yet
+	quietEpoch  bool            // the current write goes to a non-escaped fresh object
 	mergeCases  map[*Term][]*mergeCase // reach constant of a join block -> incoming cases
 	callOrd     map[string]int
 	usedCallAssumes map[*Clause]bool
@@ -153,6 +155,7 @@ func (g *Gen) reset() {
 	g.defers = nil
 	g.callOrd = map[string]int{}
 	g.heapClk = map[*Term]*Term{}
+	g.freshRefs = map[*Term]bool{}
 	g.mergeCases = map[*Term][]*mergeCase{}
 	g.usedCallAssumes = map[*Clause]bool{}
 	g.sentinels = nil
@@ -277,7 +280,9 @@ func (g *Gen) heapSet(st *State, name string, s *Sort, v *Term) {
 	if g.heapClk != nil {
 		g.heapClk[v] = st.Clk
 	}
-	st.Epoch = g.fresh("epoch", SInt)
+	if !g.quietEpoch {
+		st.Epoch = g.fresh("epoch", SInt)
+	}
 	if g.curBlock != nil {
 		m := g.writes[g.curBlock]
 		if m == nil {
@@ -464,6 +469,14 @@ func (g *Gen) store(st *State, a *Addr, ty types.Type, v Val) {
 		g.recordLocalWrite(a.Local)
 		return
 	}
+	// a write into an object this function allocated and has not yet let escape
+	// cannot be observed through any pre-existing reference: the heap epoch (used
+	// for the determinism of pure calls) stays
+	if (a.Root == RObj || a.Root == RElem) && g.freshRefs[a.Ref] {
+		g.quietEpoch = true
+		defer func() { g.quietEpoch = false }()
+	}
+	g.escape(v)
 	for _, lf := range leavesOf(ty) {
 		lv := v.at(lf.Acc)
 		if lv.K != VScalar || lv.T == nil {
@@ -1278,6 +1291,25 @@ func recordSub(m map[*Term]*Term, a, b Val) {
 			if i < len(b.F) {
 				recordSub(m, a.F[i], b.F[i])
 			}
+		}
+	}
+}
+
+// escape: a reference that is stored somewhere or handed to a call is no longer
+// private to this function.
+func (g *Gen) escape(v Val) {
+	switch v.K {
+	case VScalar:
+		if v.T != nil && g.freshRefs[v.T] {
+			delete(g.freshRefs, v.T)
+		}
+	case VAddr:
+		if v.A != nil && v.A.Ref != nil && g.freshRefs[v.A.Ref] {
+			delete(g.freshRefs, v.A.Ref)
+		}
+	case VSlice, VStruct, VTuple:
+		for _, f := range v.F {
+			g.escape(f)
 		}
 	}
 }
